@@ -21,5 +21,19 @@ func NewLocation(f *fs.File, i bytes.Index) Location {
 		Quote: quote(f.Content(), i),
 	}
 	loc.Line, loc.Column = f.Content().LineAndColumn(i)
+	if n := f.Content().LenIndex(); i == n {
+		// The position right after the last byte, where the errors about an
+		// unexpected end of the file point to, has a line and a column too
+		// (the quote is already taken from that line).
+		loc.Line, loc.Column = 1, 1
+		if n != 0 {
+			l, c := f.Content().LineAndColumn(n - 1)
+			if f.Content().Byte(n-1) == f.Content().NewLineSymbol() {
+				loc.Line, loc.Column = l+1, 1
+			} else {
+				loc.Line, loc.Column = l, c+1
+			}
+		}
+	}
 	return loc
 }
